@@ -98,6 +98,33 @@ CHECKS.update({
         note=TB + " Shows the dataflow; does not run a higher-precision type."),
 })
 
+CHECKS.update({
+    "C12": dict(
+        engine="tlc+trace", level="exploration",
+        technique="control skeleton of inverse_gamma_lr as a TLA+ outcome automaton (TLC: only Err or finite positive, bounded iterations); dense (a,p) grid recorded and validated by Trace_Gamma; accuracy by an independent incomplete-gamma oracle; lambda of every replayed sample compared bit-exactly with the public function",
+        design_ref="DESIGN.md section 4, C12 and section 6",
+        text="Exploration level: the accuracy number |P(a,lambda)-p| cannot be computed by TLC; it is supplied by the harness' own series/continued-fraction P. The specification contributes the outcome automaton (no value other than a finite positive one may be returned as Ok), checked on every call of a grid covering every starting-value branch, a within 1e-8 of 1, p down to the smallest subnormal and up to 1-2^-53; plus the dataflow clause (lambda = function of dod and coordinate 2E-2) on every Gen_Routing sample.",
+        note="Trusted base: harness P(a,x) (series / Lentz continued fraction) and Lanczos lnGamma, independent of statrs; TLC 1.8."),
+    "C17": dict(
+        engine="tlc+trace",
+        technique="Api.tla (objects, origins, threads in flight, learnt result function) model-checked by TLC for immutability and functional results; real histories - sequential, 8-16 threads on shared samplers, rng entry point with a counting RNG, settings variants, a second OS process, momtrop compiled without `log` - recorded and validated by Trace_Api",
+        design_ref="DESIGN.md section 4, C17",
+        text="TLC explores all interleavings of build / clone / serialise / deserialise / begin / end for small constants: objects are never modified, results are a function of (origin, argument). Every End event of a recorded real history must agree bit for bit (digest of all result bits) with what was learnt for its (origin, argument), whatever object, thread, history position, process or flags; rng calls must draw exactly get_dimension() numbers and equal the x-space call on the same numbers. Sample.tla's PureCalls property (no action writes the table) is checked as well.",
+        note=TB + " Interleavings of the recorded run are those the scheduler produced."),
+    "C18": dict(
+        engine="tlc+trace",
+        technique="Serialize / Deserialize actions of Api.tla (a copy has the origin of the original) checked by TLC; JSON-text and serde_json::Value round trips of real samplers recorded in the API history and validated by Trace_Api (queries and samples of the copy must equal the original's)",
+        design_ref="DESIGN.md section 4, C18",
+        text="For every origin of the history the sampler is serialised (text with float_roundtrip, and Value), deserialised, re-serialised (must be identical), queried (dimension, dod, table digest, weights) and sampled on every argument; Trace_Api rejects any disagreement with the original object.",
+        note=TB + " serde_json with float_roundtrip is the f64-exact format."),
+    "C20": dict(
+        engine="tlc+trace",
+        technique="VectorAlg.tla: each Vector operation as a term of the free algebra (lemmas checked by TLC); the terms the real Vector<Tr, D> builds are recorded by the tracking scalar and compared by TLC modulo commutativity (fold spine ordered); recorded terms evaluated in IEEE arithmetic against Vector<f64, D>; f64 MomTropFloat against std",
+        design_ref="DESIGN.md section 4, C20",
+        text="D = 1..8, all public operations (+, -, * T, * &T, +=, dot, squared, constructors, accessors): the recorded term must be the specification's. Because the validated term is then evaluated on random/special f64 vectors and compared bit for bit with the f64 instantiation, the componentwise IEEE definition is decided for the real code. The scalar trait is a differential check against the standard library.",
+        note=TB + " std f64 functions are the reference for the scalar trait."),
+})
+
 NOT_APPLICABLE = {
     "C01": "integral identity over a continuum (mean over the hypercube = Feynman integral): a finite-state TLA+ model cannot integrate; its finite premises (C04, C06-C14) are decided separately (DESIGN.md section 6)",
 }
